@@ -32,14 +32,14 @@ static const struct sarg targets[] = {
 	{ "t-absolute", "http://h:8/p?q", 0 },
 	{ "t-pct-crlf", "/a%0d%0aX-Inj:%201", 0 },
 	{ "t-punct", "/~a;b=c,d!$'()*+@:", 0 },
-	{ "target-unvalidated", "/a b", 1 },
+	{ "target-with-space", "/a b", 1 },
 	{ "target-unvalidated", "/a\r\nX-Inj: 1", 1 },
 	{ "target-unvalidated", "/a HTTP/1.1\r\nX-Inj: 1\r\nX-Pad:", 1 },
 	{ "target-unvalidated", "/a HTTP/1.1\r\n\r\nGET /evil HTTP/1.1\r\nX-Pad:", 1 },
 	{ "target-unvalidated", "/a\nX-Inj: 1", 1 },
 	{ "target-unvalidated", "/a\tb", 1 },
 	{ "target-unvalidated", "/a\rb", 1 },
-	{ "target-unvalidated", "", 1 },
+	{ "target-empty", "", 1 },
 };
 #define NTARGETS ((int)(sizeof targets / sizeof targets[0]))
 
